@@ -22,6 +22,7 @@ type SpecEnv struct {
 	inQuant int
 	guard string
 	results []SV
+	fvAddr map[string]SV // call sites of closure contracts: addresses of the captured variables (so that `modifies v` can name one)
 }
 
 type specErr struct{ msg string }
@@ -458,6 +459,15 @@ func (e *SpecEnv) evalAddr(x Expr) (string, types.Type, bool) {
 	case *EIdent:
 		if e.fr != nil {
 			if a, t, ok := e.fr.lookupLocalAddr(x.Name); ok {
+				return a, t, true
+			}
+		}
+		// a captured variable of a closure is an lvalue: its cell is the binding (ext_kviter.go)
+		if a, ok := e.fvAddr[x.Name]; ok {
+			return a.t, a.typ, true
+		}
+		if e.fr != nil {
+			if a, t, ok := e.fr.freeVarAddr(x.Name); ok {
 				return a, t, true
 			}
 		}
